@@ -118,6 +118,36 @@ def permutation(rng):
     return None
 
 
+def dtype_variants(rng):
+    """the same binary (0/1, complement-coded) rows handed over as int64, bool-like uint8, float32 and float64 arrays:
+    every channel stores what its Fuzzy ART module alone computes on the float values (slow learning makes the stored
+    weights fractional)"""
+    import artlib
+    nch = rng.choice([1, 2])
+    ds = [rng.choice([1, 2, 3]) for _ in range(nch)]
+    n = rng.randrange(4, 12)
+    raw = [np.array([[rng.randrange(2) for _ in range(d)] for _ in range(n)]) for d in ds]
+    Xi = np.hstack([np.hstack([r, 1 - r]) for r in raw])
+    rhos = [rng.choice([0.0, 0.25, 0.5]) for _ in ds]
+    beta = rng.choice([0.5, 0.25, 0.75])
+    g = [1.0] if nch == 1 else [0.5, 0.5]
+
+    def run(X):
+        est = artlib.FusionART([artlib.FuzzyART(r, 1e-3, beta) for r in rhos], g, [2 * d for d in ds])
+        est.fit(X)
+        return [int(v) for v in est.labels_], [np.asarray(w, dtype=float) for w in est.W]
+    try:
+        ref = run(Xi.astype(float))
+        for dt in (np.int64, np.uint8, np.float32):
+            got = run(Xi.astype(dt))
+            if got[0] != ref[0] or len(got[1]) != len(ref[1]) or any(not np.allclose(a, b, atol=1e-6) for a, b in zip(got[1], ref[1])):
+                return {"signature": "FusionART/input-dtype", "text": f"rows given as {np.dtype(dt).name} are not learned as the same values given as float64 (each channel stores what its module's rule computes)",
+                        "replay": {"X": Xi.tolist(), "dtype": np.dtype(dt).name, "rhos": rhos, "beta": beta, "gammas": g, "channel_dims": [2 * d for d in ds]}}
+    except Exception as e:
+        return {"signature": "FusionART/input-dtype", "text": f"{type(e).__name__}: {str(e)[:80]}", "replay": {"X": Xi.tolist(), "rhos": rhos, "beta": beta}}
+    return None
+
+
 def long_weight(rng):
     """modules whose weight vector is longer than the channel width"""
     import artlib
@@ -181,7 +211,7 @@ def main():
         stats["with_veto"] += 1 if ops[0].get("veto") else 0
         fails.extend(oracle(f, ops))
     for _ in range(60 if tier == "quick" else 600):
-        for g in (bare_vs_one_channel, permutation, long_weight):
+        for g in (bare_vs_one_channel, permutation, long_weight, dtype_variants):
             r = g(rng)
             if r:
                 fails.append(r)
